@@ -427,7 +427,7 @@ func (c *Ctx) Run(tier string) {
 		rep.Exhaustive = false
 		rep.Note("the random-source overlay could not be applied to cmd/gmars/main.go; random placement was not explored")
 	} else {
-		rgeos := []geo{{7, 1}, {10, 1}}
+		rgeos := []geo{{4, 1}, {7, 2}, {7, 1}, {10, 1}} // the first two: core size exactly 3*length+1 (a single legal placement)
 		maxR := 2
 		if thorough {
 			maxR = 3
@@ -435,6 +435,9 @@ func (c *Ctx) Run(tier string) {
 		for _, gm := range rgeos {
 			n := (gm.s - gm.l - 1) - 2*gm.l + 1
 			for _, pr := range [][2]int{{0, 1}, {1, 0}, {0, 0}, {6, 1}, {0, 6}} {
+				if n < 1 {
+					continue
+				}
 				for r := 1; r <= maxR; r++ {
 					if !c.mine() || c.expired() {
 						continue
@@ -456,7 +459,7 @@ func (c *Ctx) Run(tier string) {
 				}
 			}
 		}
-		rep.Bound += fmt.Sprintf("; random placement: -s in {7,10} -l 1, 5 pairs, rounds 1..%d with every answer sequence of the random source forced through a build overlay", maxR)
+		rep.Bound += fmt.Sprintf("; random placement: (-s,-l) in {(4,1),(7,2),(7,1),(10,1)}, 5 pairs, rounds 1..%d with every answer sequence of the random source forced through a build overlay", maxR)
 	}
 	rep.Sample("gmars -s 13 -p 8 -c 40 -l 4 -8 -F 9 dwarf.red clear.red")
 }
